@@ -57,6 +57,16 @@ FAULTS = [
     ("bad-digits-after-two-tildes", ".word ~ ~ 19", "19", "invalid-number"),
     ("undefined-after-two-signs", "mov #- -UNDEF2, r0", "UNDEF2", "undefined-symbol"),
     ("too-large-after-hash", "mov # -400000, r0", "-400000", "value-out-of-bounds"),
+    # the culprit is the whole displacement of an index operand, written as an unbracketed infix expression
+    ("index-sum-too-large", "mov 177777+177777+5(r2), r0", "177777+177777+5", "value-out-of-bounds"),
+    ("index-deferred-sum-too-large", "mov @177777+177777+5(r1), r0", "177777+177777+5", "value-out-of-bounds"),
+    ("index-product-too-large", "mov 2*100000(r1), r2", "2*100000", "value-out-of-bounds"),
+    ("index-difference-too-large", "clr 1000000-1(r5)", "1000000-1", "value-out-of-bounds"),
+    ("index-division-by-zero", "mov 5/0(r3), r1", "5/0", "arithmetic-error"),
+    ("index-negative-shift", "mov 1+2<<-1(r2), r0", "1+2<<-1", "arithmetic-error"),
+    ("index-undefined-right", "clr 3+UNDEF7(r4)", "UNDEF7", "undefined-symbol"),
+    ("index-undefined-left", "clr UNDEF8*2(r4)", "UNDEF8", "undefined-symbol"),
+    ("index-negative-too-large", "mov -200000(r1), r2", "-200000", "value-out-of-bounds"),
 ]
 
 FILLER = [
